@@ -58,7 +58,7 @@ func (r *SimReader) Pos() int { return r.pos }
 func (r *SimReader) Read(p []byte) (int, error) {
 	n, err := r.read(p)
 	if r.ctx != nil {
-		r.ctx.Log("rd", n, err)
+		r.ctx.Log("rd n=%d err=%v", n, err)
 	}
 	return n, err
 }
